@@ -130,12 +130,12 @@ def gen(rng, tier):
         cases.append({"Text": base, "kind": "end", "group": g, "role": "end", "Weight": False, "Solve": False, "ParseOnly": True})
     # a load exactly on an even tenth of a bar and another within the slicing tolerance (1e-3) of it, plus a third elsewhere:
     # every order of the three load lines
-    for k in range(2 if tier == "quick" else 12):
+    for k in range(3 if tier == "quick" else 12):
         g = n + k
         s = G.gen_beam(rng)
         b = s.bars[0]
         t0 = Fr(["0.5", "0.2", "0.4", "0.6", "0.1", "0.7"][k % 6])       # (exactly representable or not: the uniform cut may or may not be the same float)
-        d = Fr(["0.0008", "-0.0007", "0.0004"][k % 3])
+        d = Fr(["0.0008", "-0.0007", "0.00000000004"][k % 3])       # (the last one: within the 1e-10 at which positions are taken for one)
         s.loads = [{"kind": "c", "term": "fy", "local": True, "bar": b["id"], "t": t0, "v": Fr(-2000)},
                    {"kind": "c", "term": "fy", "local": True, "bar": b["id"], "t": t0 + d, "v": Fr(-500)},
                    {"kind": "c", "term": rng.choice(["fy", "mz"]), "local": True, "bar": b["id"], "t": Fr(rng.choice(["0.3", "0.85", "0.6125"])), "v": Fr(-700)}]
@@ -291,9 +291,10 @@ def many_bars(ctx):
     bars = [l for l in lines[k + 1:end] if l.strip()]
     ids = sorted(l.split("->")[0].strip() for l in bars)
     runs = 0
+    plan = {"as generated": ("1", "7", None), "reversed": ("7",), "rotated": (None,)} if ctx.tier == "quick" else {}
     for what, order in (("as generated", bars), ("reversed", bars[::-1]), ("rotated", bars[205:] + bars[:205])):
         t = "\n".join(lines[:k + 1] + order + lines[end:])
-        for procs in ("1", "7", None):
+        for procs in plan.get(what, ("1", "7", None)):
             r = cli.run(ctx, ["pre", "x.inkfem"], files={"x.inkfem": t}, env={"GOMAXPROCS": procs} if procs else {}, name="c08big", timeout=300)
             runs += 1
             pre = r.files.get("x.inkfempre") or ""
@@ -311,7 +312,7 @@ def run(ctx):
     core.run(ctx, SPEC)
     nb = many_bars(ctx)
     ctx.coverage["many_bars_runs"] = nb
-    ctx.log("%d runs of pre on a 615-bar frame (three bar orders x GOMAXPROCS 1, 7, all): every bar sliced" % nb)
+    ctx.log("%d runs of pre on a 615-bar frame (three bar orders, GOMAXPROCS 1, 7, all): every bar sliced" % nb)
     n = race_runs(ctx)
     ctx.coverage["race_detector_runs"] = n
     ctx.log("%d runs of the race-detector build (solve -s -p, solve -p -w, solve -s -v, pre): no report" % n if not any("race detector" in v[2] for v in ctx.violations) else "race detector reported a race")
